@@ -37,7 +37,11 @@ fn main() {
                 faults: !args.iter().any(|a| a == "--no-faults"),
                 multi_world: !args.iter().any(|a| a == "--single-world"),
                 max_live: arg(&args, "--max-live", 8usize),
+                big: args.iter().any(|a| a == "--big"),
             };
+            if prof.big {
+                hh.max_dump = 600;
+            }
             let mut r = drive::Rng(seed.wrapping_mul(0x9E3779B97F4A7C15) | 1);
             hh.decl();
             for _ in 0..runs {
